@@ -689,6 +689,22 @@ class NullChk:
                 ptr = norm(e.kid(0))
             elif e.cls == "ArraySubscriptExpr":
                 ptr = norm(e.kid(0))
+            elif e.cls == "CallExpr" and e.callee and e.callee not in DEREF_CALLEES and self.prog.resolve(f, e.callee) is not None:
+                # a function of the program that dereferences what it is given (or a member of it) without looking
+                g = self.prog.resolve(f, e.callee)
+                hp, hm = deref_summary(self.prog, g)
+                for k, a in enumerate(e.args):
+                    if a is None:
+                        continue
+                    an = norm(a)
+                    for x in st:
+                        if len(x) < 3:
+                            continue          # only pointers known to be NULL here (tested, on the NULL edge)
+                        if k in hp and x[0] == an:
+                            bad.append((f.elem(x[1]), x[0], e))
+                        if x[0][0] == "." and x[0][1] == ("*", an) and (k, x[0][2]) in hm:
+                            bad.append((f.elem(x[1]), x[0], e))
+                return
             elif e.cls == "CallExpr" and e.callee in DEREF_CALLEES:
                 for k in DEREF_CALLEES[e.callee]:
                     a = e.arg(k)
@@ -704,6 +720,60 @@ class NullChk:
                         bad.append((f.elem(x[1]), x[0], e))
         s.visit(visit)
         return sites, bad
+
+
+_deref_memo = {}
+
+
+def deref_summary(prog, g, depth=0):
+    """(params, members): indices k such that g dereferences its k-th parameter without a NULL test of it, and pairs (k, member)
+    such that g dereferences p_k->member without a NULL test of that member -- directly, or by handing it to a function of the
+    program that does (three levels deep)."""
+    key = (g.unit.path, g.name)
+    if key in _deref_memo:
+        return _deref_memo[key]
+    _deref_memo[key] = (frozenset(), frozenset())
+    P = {}
+    for k, p in enumerate(g.params):
+        P[("v", p["name"], p["id"])] = k
+    # locals that are just the parameter under another type: `struct T * x = cookie;`
+    for e in g.all_elems():
+        if e.cls == "DeclStmt":
+            for d in e.decls or []:
+                if isinstance(d, dict) and d.get("init"):
+                    v = norm(g.elem(d["init"]))
+                    if v in P:
+                        P[("v", d["name"], d["id"])] = P[v]
+    params, members = set(), set()
+
+    def guarded(e, T):
+        return any(L == T and R == ("c", 0) for cond, truth in g.edge_conds(e) for op, L, R, _, _ in cond_atoms(cond, truth))
+
+    def note(T, e):
+        if T in P:
+            if not guarded(e, T):
+                params.add(P[T])
+        elif T[0] == "." and T[1][0] == "*" and T[1][1] in P:
+            if not guarded(e, T):
+                members.add((P[T[1][1]], T[2]))
+    for e in g.all_elems():
+        if e.cls == "MemberExpr" and e.op == "->":
+            note(norm(e.kid(0)), e)
+        elif e.cls == "UnaryOperator" and e.op == "*":
+            note(norm(e.kid(0)), e)
+        elif e.cls == "ArraySubscriptExpr":
+            note(norm(e.kid(0)), e)
+        elif e.cls == "CallExpr" and e.callee and depth < 3:
+            h = prog.resolve(g, e.callee)
+            if h is not None and h is not g:
+                hp, hm = deref_summary(prog, h, depth + 1)
+                for k in hp:
+                    a = e.arg(k)
+                    if a is not None:
+                        note(norm(a), e)
+    res = (frozenset(params), frozenset(members))
+    _deref_memo[key] = res
+    return res
 
 
 _fail_memo = {}
